@@ -64,6 +64,47 @@ inline void put_stmt(std::ostream &o, const z_cfg_t::statement_t &s, const VarTa
     o << "}";
   } else if (s.is_unreachable()) {
     o << "{\"op\":\"unreach\"}";
+  } else if (s.is_bool_bin_op()) {
+    auto &b = static_cast<const B::bool_bin_op_t &>(s);
+    const char *f = b.op() == crab::cfg::BINOP_BAND ? "and" : b.op() == crab::cfg::BINOP_BOR ? "or" : "xor";
+    o << "{\"op\":\"bop\",\"f\":\"" << f << "\",\"x\":" << vt.find(b.lhs()) << ",\"y\":" << vt.find(b.left()) << ",\"z\":"
+      << vt.find(b.right()) << "}";
+  } else if (s.is_bool_assign_cst()) {
+    auto &b = static_cast<const B::bool_assign_cst_t &>(s);
+    if (!b.is_rhs_linear_constraint()) {
+      o << "{\"op\":\"unknown\"}";
+    } else {
+      o << "{\"op\":\"bassign_cst\",\"x\":" << vt.find(b.lhs()) << ",\"c\":";
+      put_cst(o, b.rhs_as_linear_constraint(), vt);
+      o << "}";
+    }
+  } else if (s.is_bool_assign_var()) {
+    auto &b = static_cast<const B::bool_assign_var_t &>(s);
+    o << "{\"op\":\"bassign_var\",\"x\":" << vt.find(b.lhs()) << ",\"y\":" << vt.find(b.rhs()) << ",\"neg\":" << (b.is_rhs_negated() ? 1 : 0)
+      << "}";
+  } else if (s.is_bool_assume()) {
+    auto &b = static_cast<const B::bool_assume_t &>(s);
+    o << "{\"op\":\"bassume\",\"x\":" << vt.find(b.cond()) << ",\"neg\":" << (b.is_negated() ? 1 : 0) << "}";
+  } else if (s.is_bool_assert()) {
+    auto &b = static_cast<const B::bool_assert_t &>(s);
+    o << "{\"op\":\"bassert\",\"x\":" << vt.find(b.cond()) << ",\"id\":" << b.get_debug_info().get_id() << "}";
+  } else if (s.is_bool_select()) {
+    auto &b = static_cast<const B::bool_select_t &>(s);
+    o << "{\"op\":\"bselect\",\"x\":" << vt.find(b.lhs()) << ",\"c\":" << vt.find(b.cond()) << ",\"y\":" << vt.find(b.left())
+      << ",\"z\":" << vt.find(b.right()) << "}";
+  } else if (s.is_int_cast()) {
+    auto &c = static_cast<const B::int_cast_t &>(s);
+    const char *f = c.op() == crab::cfg::CAST_ZEXT ? "zext" : c.op() == crab::cfg::CAST_SEXT ? "sext" : "trunc";
+    bool sb = c.src().get_type().is_bool(), db = c.dst().get_type().is_bool();
+    o << "{\"op\":\"cast\",\"f\":\"" << f << "\",\"x\":" << vt.find(c.dst()) << ",\"y\":" << vt.find(c.src()) << ",\"sk\":\""
+      << (sb ? "bool" : "int") << "\",\"dk\":\"" << (db ? "bool" : "int") << "\",\"sw\":" << c.src_width() << ",\"dw\":" << c.dst_width() << "}";
+  } else if (s.is_callsite()) {
+    auto &c = static_cast<const B::callsite_t &>(s);
+    o << "{\"op\":\"callx\",\"lhs\":[";
+    for (unsigned k = 0; k < c.get_num_lhs(); ++k) o << (k ? "," : "") << vt.find(c.get_lhs()[k]);
+    o << "],\"args\":[";
+    for (unsigned k = 0; k < c.get_num_args(); ++k) o << (k ? "," : "") << vt.find(c.get_args()[k]);
+    o << "]}";
   } else if (s.is_arr_init()) {
     auto &a = static_cast<const B::arr_init_t &>(s);
     o << "{\"op\":\"ainit\",\"a\":" << vt.find(a.array()) << ",\"es\":" << a.elem_size().constant().get_str() << ",\"lb\":";
